@@ -120,6 +120,9 @@ fn classify_count(t: &str) -> (Tok, u64) {
 
 /// The reference line parser: what the line spells, an error class, or "unspecified".
 pub fn ref_parse(line: &str) -> Exp {
+    // spacing AROUND the command (blanks, tabs, the line terminator the console delivers, a stray CR
+    // or LF in front) is "arbitrary extra spacing"; other whitespace BETWEEN tokens stays unspecified
+    let line = line.trim_matches(|c: char| c == ' ' || c == '\t' || c == '\n' || c == '\r' || c == '\x0b' || c == '\x0c');
     if line.chars().any(|c| c != ' ' && (c.is_whitespace() || c.is_control())) {
         return Exp::Unspec("non-space whitespace or control character");
     }
@@ -717,6 +720,12 @@ pub fn run(tier: Tier) -> i32 {
         push(l.replace(' ', "  "), &mut lines);
         push(l.replace(' ', "   "), &mut lines);
         push(l.replace(' ', "\t"), &mut lines);
+        // whitespace of other kinds around the command
+        push(format!("\t{}", l), &mut lines);
+        push(format!("{}\r\n", l), &mut lines);
+        push(format!("\r\n{}\r\n", l), &mut lines);
+        push(format!(" \t {}\t", l), &mut lines);
+        push(format!("\x0b{}\x0c", l), &mut lines);
         // every token prefix
         let toks: Vec<&str> = l.split(' ').filter(|t| !t.is_empty()).collect();
         for n in 0..toks.len() {
